@@ -142,6 +142,35 @@ int main(int argc, char** argv)
         fs::current_path(g_base, ec);
         const std::string req = sub_in(unhex(f[3])), curp = sub_in(unhex(f[4])), curv = unhex(f[5]);
         auto res = forked([&]() -> std::string {
+            if (kind == "infoseq")
+            {
+                // several requests, one after the other, on ONE file system object: hexreq,hexcurp,hexcurv | ...
+                RecLogger lg;
+                sqf::fileio::impl_default io(lg);
+                setup(io, f[2]);
+                std::string out;
+                bool first = true;
+                for (auto& item : split(unhex(f[3]), '|'))
+                {
+                    auto g = split(item, ',');
+                    while (g.size() < 3) g.push_back("");
+                    auto rq = sub_in(unhex(g[0])), cp = sub_in(unhex(g[1])), cv = unhex(g[2]);
+                    std::string one;
+                    auto i = io.get_info(rq, sqf::runtime::fileio::pathinfo{ cp, cv });
+                    if (!i.has_value()) one = "NONE";
+                    else
+                    {
+                        std::string rd;
+                        try { rd = "C" + hexo(io.read_file(*i)); }
+                        catch (...) { rd = fs::is_directory(i->physical) ? "DIRTHROW" : "THROWN"; }
+                        one = "OK " + hexo(i->physical) + " " + hexo(i->virtual_) + " " + rd;
+                    }
+                    if (!first) out += " || ";
+                    first = false;
+                    out += one;
+                }
+                return out;
+            }
             if (kind == "info")
             {
                 RecLogger lg;
